@@ -272,7 +272,7 @@ impl Property for C11 {
         format!(
             "every event program of 1..={} events (delays {{0,1,t,Y+1}}) x start in {{0,5}} x (n,t) in {:?} x every limit: None, EventCount(0..=m+1), SimTime(T) for T = every timestamp and +-1ns, \
              And/Or of every (count, time) pair in both operand orders and via Builder::max_itr/max_time chains in both orders{}, and every ordered pair of plain bounds (count/count, time/time, mixed) added one after the other through max_itr/max_time and through limit(..).limit(..); \
-             every second run whose limit admits an event is driven by hand (start, one counted step, dispatch_all, finish) instead of run(); oracle: own evaluator applied to the log L of the real unlimited run: dispatched == longest admitted prefix of L, remaining == undelivered events with timestamps plus the two events the application schedules in its at_sim_end, end time, event_count; \
+             every second run whose limit admits an event is driven by hand (start, one counted step, dispatch_all, finish) instead of run(); plus two programs of 6 events 1-2 ns apart beyond 2^24 s / 2^25 s of simulated time under every such limit; oracle: own evaluator applied to the log L of the real unlimited run: dispatched == longest admitted prefix of L, remaining == undelivered events with timestamps plus the two events the application schedules in its at_sim_end, end time, event_count; \
              non-trivial = the limit cuts the run strictly inside (0 < k < |L|)",
             tier.pick(4, 5),
             CFGS,
@@ -283,9 +283,39 @@ impl Property for C11 {
         vec!["the time-ordered event sequence of a program is taken from the real unlimited run (differential), so the oracle does not depend on the tie rule".into()]
     }
     fn required_features(&self, _tier: Tier) -> Vec<&'static str> {
-        vec!["count_limit_equals_total", "time_limit_equals_a_timestamp", "time_limit_inside_tie_group", "and_tree", "or_tree", "builder_chain", "builder_chain_of_two_bounds_of_one_kind", "cut_with_remaining_events", "builder_limit_tree_then_plain_bound"]
+        vec!["count_limit_equals_total", "time_limit_equals_a_timestamp", "time_limit_inside_tie_group", "and_tree", "or_tree", "builder_chain", "builder_chain_of_two_bounds_of_one_kind", "cut_with_remaining_events", "builder_limit_tree_then_plain_bound", "limits_beyond_2^24_seconds"]
     }
     fn explore(&self, ctx: &mut Ctx) {
+        if ctx.is_first_shard() {
+            // limits far from zero: events 1 ns apart beyond 2^24 s of simulated time (1 ns is below the
+            // resolution of an f64 second count there), under every limit the small programs get
+            for (n, t, b0) in [(8usize, 99_900_000_000u64, (1u64 << 24) * 1_000_000_000 + 123_456_789), (8, 99_900_000_000, (1u64 << 25) * 1_000_000_000 + 999_999_990)] {
+                // (coarse buckets and a start time just before the events keeps the calendar's linear head scan short; work is spread over the workers below)
+                let cfg = RtCfg { n, t, start: b0 - 5 };
+                let m = 6usize;
+                let prog = Arc::new(Program { roots: (0..m as u32).map(|j| (j, 5 + u64::from(j) + u64::from(j / 3))).collect(), children: vec![vec![]; m] });
+                let base = match unlimited(cfg, &prog) {
+                    Ok(b) => b,
+                    Err(d) => {
+                        ctx.violation("violation", || case_json(cfg, &prog, &Lim::None, Via::Limit), d);
+                        continue;
+                    }
+                };
+                let mut ts: Vec<u64> = base.iter().map(|e| e.1 as u64).collect();
+                ts.sort_unstable();
+                ts.dedup();
+                for (lim, via) in limits(m, &ts, false) {
+                    ctx.out.evaluations += 1;
+                    ctx.out.traces += 1;
+                    ctx.hit("limits_beyond_2^24_seconds");
+                    ctx.begin(|| case_json(cfg, &prog, &lim, via));
+                    match run_case(cfg, &prog, &lim, via, &base) {
+                        Ok(o) => ctx.outcome(o),
+                        Err(d) => ctx.violation("violation", || case_json(cfg, &prog, &lim, via), d),
+                    }
+                }
+            }
+        }
         let maxm = ctx.tier.pick(4, 5);
         for (n, t) in CFGS {
             let y = n as u64 * t;
